@@ -888,10 +888,42 @@ def run(ctx):
             continue
         seen.add((tag, sig))
         ctx.violation(tag, sig, what, d)
+    if getattr(ctx, "selftest", False):
+        selftest(ctx, slim, xjson, progs, meta)
     if stale:
         raise vlib.MachineryError(stale)
     if ncalls < 200 and not ctx.violations and not ctx.known_hits:
         raise vlib.MachineryError("the stress children made only %d calls: nothing was exercised" % ncalls)
+
+
+def selftest(ctx, slim, xjson, progs, meta):
+    """binding demonstration: corrupted inputs must be rejected"""
+    import copy
+    # 1. a trace whose `calls` line claims more returns than calls is not a behaviour of Trace_Locks
+    bad = copy.deepcopy(slim)
+    i = next(k for k, e in enumerate(bad) if e["op"] == "calls")
+    bad[i]["ret"] = bad[i]["n"] + 1
+    tp = ctx.path("selftest.ndjson")
+    vlib.write_ndjson(tp, bad)
+    res = ctx.tlc_validate("Trace_Locks", tp, timeout=600)
+    if res["ok"] or res["hwm"] != i:
+        raise vlib.MachineryError("selftest: corrupted trace line %d was accepted (hwm=%s)" % (i + 1, res["hwm"]))
+    # 2. swapping two lock steps in the extracted sources must be noticed by the conformance check
+    x2 = copy.deepcopy(xjson)
+    ev = x2["funcs"]["Session.updateStats"]["events"]
+    ev[0], ev[1] = ev[1], ev[0]
+    _, rep = conformance(ctx, x2, progs, meta)
+    if not any("Session.updateStats" in p for p in rep["problems"]):
+        raise vlib.MachineryError("selftest: reordered lock steps of updateStats were not noticed")
+    # 3. a synthetic race-detector report becomes the expected event
+    rpt = ("==================\nWARNING: DATA RACE\nWrite at 0x00c000000001 by goroutine 7:\n  " + RAIN + "torrent.(*torrent).handleStopped()\n      x.go:1 +0x1\n  "
+           + RAIN + "torrent.(*torrent).run()\n      x.go:2 +0x1\n  " + RAIN + "torrent.newTorrent.gowrap1()\n      x.go:3 +0x1\n\n"
+           "Previous read at 0x00c000000001 by goroutine 9:\n  " + RAIN + "torrent.(*torrent).Files()\n      y.go:1 +0x1\n  main.x()\n      m.go:1 +0x1\n\n"
+           "Goroutine 7 (running) created at:\n  " + RAIN + "torrent.newTorrent()\n      x.go:9 +0x1\n\nGoroutine 9 (running) created at:\n  main.y()\n      m.go:2 +0x1\n==================\n")
+    evs, _ = race_events(rpt, set())
+    if [(e["a"], e["b"]) for e in evs] != [("torrent.(*torrent).Files", "loop:torrent.(*torrent).handleStopped")]:
+        raise vlib.MachineryError("selftest: race report parsed as %s" % evs)
+    vlib.log("selftest: corrupted trace rejected at line %d; reordered lock steps noticed; race report parsed" % (i + 1))
 
 
 def _drop_empty_skip(args):
